@@ -571,9 +571,16 @@ def c13(chk):
     polling_runs(chk, exe)
     lines_run(chk, exe, ["pp-directed"], "pp-directed", stateful=True)
     sample_from(chk, "pp-directed", 3)
+    # the crate as shipped (hook off, std::time::Instant): histories whose outcome cannot depend on scheduling
+    exe_r = chk.cargo_build("real_clock")
+    if exe_r is not None:
+        lines_run(chk, exe_r, ["pp-realclock"], "pp-realclock", stateful=True)
     chk.cov["rule"] = POLL_RULE + ("; directed scenarios from the property text with verdicts on the real code: early polls return nothing and have no effect / the first late "
-                                   "poll reports once / an unpaired LSB is dropped by the first late poll / feed results do not depend on the passage of time (timeouts 1, 2, 3, 1000, 2^40, u64::MAX)")
-    chk.assumptions += ["the model's clock is the mock clock of the hook; that std::time::Instant is monotone and elapsed() saturates is assumed, not checked"]
+                                   "poll reports once / an unpaired LSB is dropped by the first late poll / feed results do not depend on the passage of time (timeouts 1, 2, 3, 1000, 2^40, u64::MAX); "
+                                   "build WITHOUT the hook (std::time::Instant): seeded random histories with timeout 0 (every poll late), one hour (every poll early) and 1 ms with a real "
+                                   "5 ms sleep before each poll (late), compared with the model line by line")
+    chk.assumptions += ["the model's clock is the mock clock of the hook; that std::time::Instant is monotone and elapsed() saturates is assumed, not checked; "
+                        "the hook-off build is compared with the model only on histories that are robust against scheduling delays (no early poll with a short timeout)"]
 
 
 def c14(chk):
@@ -714,6 +721,10 @@ def replay(pid, path):
     if path.endswith(".tr"):
         chk = Check(pid, "quick", 1)
         feats = "with_serde" if pid == "C19" else "std"
+        with open(path) as f:
+            first = f.readline()
+        if first.startswith("# config "):
+            feats = first.split()[2]
         exe = chk.cargo_build(feats)
         sh(["lake", "build", "driver"], cwd=LEAN)
         with open(path) as f:
